@@ -88,7 +88,6 @@ type ObjectStorage struct {
 	// Protected by muA; use findInAlternates for concurrent lookups.
 	alternates     []*ObjectStorage
 	alternatesInit bool
-	alternatesErr  error
 	muA            sync.RWMutex
 }
 
@@ -111,13 +110,13 @@ func NewObjectStorageWithOptions(dir *dotgit.DotGit, objectCache cache.Object, o
 // Uses double-checked locking to ensure thread-safe, one-time initialization.
 // Returns a non-nil error only for real I/O failures; a missing alternates
 // file (os.ErrNotExist) is silently ignored since alternates are optional.
+// A failure is not cached: the next caller tries again.
 func (s *ObjectStorage) initAlternates() error {
 	simhook.BeforeRLock(&s.muA)
 	s.muA.RLock()
 	if s.alternatesInit {
-		err := s.alternatesErr
 		s.muA.RUnlock()
-		return err
+		return nil
 	}
 	s.muA.RUnlock()
 
@@ -126,17 +125,23 @@ func (s *ObjectStorage) initAlternates() error {
 	defer s.muA.Unlock()
 
 	if s.alternatesInit {
-		return s.alternatesErr
+		return nil
 	}
-	s.alternatesInit = true
 
 	dotgits, err := s.dir.Alternates()
 	if err != nil {
-		if !errors.Is(err, os.ErrNotExist) {
-			s.alternatesErr = err
+		if errors.Is(err, os.ErrNotExist) {
+			// no alternates file: that is an answer, and it is final
+			s.alternatesInit = true
+			return nil
 		}
-		return s.alternatesErr
+		// The list could not be read this time (EMFILE, EIO, ...). Nothing is
+		// remembered: an I/O error is not a property of the repository, and
+		// caching it would fail every later lookup that reaches the
+		// alternates, for as long as the storage lives.
+		return err
 	}
+	s.alternatesInit = true
 	for _, dg := range dotgits {
 		s.alternates = append(s.alternates,
 			NewObjectStorageWithOptions(dg, s.objectCache, s.options))
@@ -155,7 +160,6 @@ func (s *ObjectStorage) resetAlternates() {
 		_ = alt.Close()
 	}
 	s.alternates = nil
-	s.alternatesErr = nil
 	s.alternatesInit = false
 }
 
